@@ -51,6 +51,47 @@ def fails(r, plan):
     return one(r, plan)[0] == "diff"
 
 
+def shared_vs_fresh(chk, enlarge):
+    """Oracle-only family on the driver of C04's closure_progs (props/C04.py drive_closure): ONE ops.take(count) /
+    ops.skip(count) operator value applied to 2-3 probe sources versus a fresh operator value per application, the
+    same generated history of overlapping subscriptions and deliveries; per delivery who heard what must be equal
+    (the statement of C44 itself; the shared run is also compared with the Coq program by C04)."""
+    from props.C04 import drive_closure
+    rng = chk.rng
+    n = {"quick": 300, "thorough": 3000}[chk.tier] * (4 if enlarge else 1)
+    dist, failing = {"take": 0, "skip": 0, "events": 0}, []
+    for _ in range(n):
+        which, napps = rng.randrange(2), rng.randint(2, 3)
+        count = rng.randint(1, 4) if which == 0 else rng.randint(0, 4)
+        h, nsub, fed = [(-100, 0)] * napps, 0, {}
+        for _step in range(rng.randint(2, 14)):
+            if nsub < 2 or (nsub < 5 and rng.random() < 0.25):
+                h.append((-1 - (nsub if nsub < napps else rng.randrange(napps)), 0))
+                nsub += 1
+            else:
+                j = rng.randrange(nsub)
+                fed[j] = fed.get(j, 0) + 1
+                h.append((j, fed[j] - 1))
+        shared, _ = drive_closure(which, count, h)
+        ref, _ = drive_closure(which, count, h, fresh=True)
+        chk.cov["evaluations"] += 1
+        dist["take" if which == 0 else "skip"] += 1
+        dist["events"] += len(h)
+        if shared != ref:
+            failing.append({"family": "shared_vs_fresh", "operator": "take" if which == 0 else "skip", "which": which,
+                            "count": count, "history": [list(e) for e in h], "shared": shared, "fresh": ref})
+    chk.cov["shared_vs_fresh"] = {"cases": n, "distribution": dist,
+                                  "rule": "one ops.take / ops.skip operator value applied to 2-3 probe sources vs a fresh "
+                                          "value per application; 2-5 subscriptions spread over the applications, each "
+                                          "fed 0, 1, 2, ...; per delivery: who heard what"}
+    for m in sorted(failing, key=lambda m: len(m["history"]))[:1]:
+        chk.violation(f"shared_vs_fresh|{m['operator']}",
+                      dict(m, n_failing_histories=len(failing),
+                           what="history: (-100, _) = apply the operator value to a new source, (-1 - k, _) = subscribe "
+                                "to application k, (j, i) = deliver i to subscription j; recordings per delivery "
+                                "[subscriber, value, #heard, heard...] (0 = on_completed, v+1 = on_next v)"), size=1)
+
+
 def run(chk):
     proved = chk.build_and_prove()
     tv = ac.table_verdict(chk, "C44")
@@ -128,6 +169,7 @@ def run(chk):
     if hist["construct_errors"]:
         chk.tie_broken("differential harness: a recipe can no longer be constructed", hist["construct_errors"][:10])
     ac.tie_table_vs_differential(chk, tv, failing, cases + pipes, "C44")
+    shared_vs_fresh(chk, enlarge)
     if tv is not None:
         chk.cov["table"] = tv["stats"]
         chk.cov["traces_validated_against_impl"] = tv["stats"]["rows_checked_in_coq"]
@@ -163,6 +205,17 @@ def run(chk):
 
 def replay(chk, path):
     d = json.load(open(path))
+    if d.get("family") == "shared_vs_fresh":
+        from props.C04 import drive_closure
+        h = [tuple(e) for e in d["history"]]
+        shared, _ = drive_closure(d["which"], d["count"], h)
+        ref, _ = drive_closure(d["which"], d["count"], h, fresh=True)
+        print("history:", h)
+        print("one operator value :", shared)
+        print("fresh per application:", ref)
+        if shared != ref:
+            print(f"VIOLATION property=C44 replay={path}")
+        return 0 if shared == ref else 1
     if "case" not in d:
         print(json.dumps(d, indent=1)[:6000])
         return 1
